@@ -1030,6 +1030,13 @@ func (tb *TB) indexOb(in ssa.Instruction, x, idx ssa.Value) *BoundOb {
 			return ob
 		}
 	}
+	// a byte indexes any array of 256 or more elements, a uint16 any of 65536 or more
+	if bt, ok := idx.Type().Underlying().(*types.Basic); ok && isArr && ls == "0" {
+		if (bt.Kind() == types.Uint8 && lc >= 256) || (bt.Kind() == types.Uint16 && lc >= 65536) {
+			ob.OK, ob.How = true, "index type cannot exceed the array length"
+			return ob
+		}
+	}
 	// freshly built literal arrays are Allocs: handled above via array type
 	s := tb.system(in)
 	is, io := linear(tb.Term(idx))
